@@ -78,6 +78,45 @@ func neoContract(variant int) []byte {
 	return b.Bytes()
 }
 
+// neoDelContract: entry stack (top first) mode, key, value.
+//
+//	mode true:  Storage.Put(GetContext(), key, value); return 1
+//	mode false: Storage.Delete(GetContext(), key); return 1      (the first write is a delete)
+func neoDelContract() []byte {
+	var put, del bytes.Buffer
+	neoSyscall(&put, "System.Storage.GetContext")
+	neoSyscall(&put, "System.Storage.Put")
+	put.WriteByte(opPUSH1)
+	put.WriteByte(opRET)
+	neoSyscall(&del, "System.Storage.GetContext")
+	neoSyscall(&del, "System.Storage.Delete")
+	del.WriteByte(opPUSH1)
+	del.WriteByte(opRET)
+	var b bytes.Buffer
+	b.WriteByte(opJMPIFNOT)
+	off := 3 + put.Len()
+	b.WriteByte(byte(off))
+	b.WriteByte(byte(off >> 8))
+	b.Write(put.Bytes())
+	b.Write(del.Bytes())
+	return b.Bytes()
+}
+
+// neoDelCall: invoke code for neoDelContract (put when val != nil, else delete).
+func neoDelCall(addr common.Address, key, val []byte, put bool) []byte {
+	var b bytes.Buffer
+	neoPush(&b, val)
+	neoPush(&b, key)
+	if put {
+		b.WriteByte(opPUSH1)
+	} else {
+		b.WriteByte(opPUSH0)
+	}
+	b.WriteByte(opAPPCALL)
+	b.Write(addr[:])
+	return b.Bytes()
+}
+
 // neoCall: invoke code calling a deployed neoContract.
 func neoCall(addr common.Address, key, val []byte, destroy bool) []byte {
 	var b bytes.Buffer
@@ -138,6 +177,7 @@ type chain struct {
 	ethNonce map[ethcomm.Address]uint64
 	neoLive  common.Address // deployed, has storage
 	neoDead  common.Address // deployed, then destroyed in a later block
+	neoDel   common.Address // deployed, has storage k0/k1; its delete path writes a tombstone first
 	neoCodes [][]byte
 	evmStore ethcomm.Address
 	evmKill  ethcomm.Address
@@ -276,6 +316,8 @@ func newChain(dir string, r *rand.Rand, extraBlocks int) (*chain, error) {
 	c.neoDead = common.AddressFromVmCode(c.neoCodes[1])
 	d0 := must(c.deployTx(c.neoCodes[0], payload.NEOVM_TYPE, k.Acct, 30_000_000))
 	d1 := must(c.deployTx(c.neoCodes[1], payload.NEOVM_TYPE, k.Acct, 30_000_001))
+	c.neoDel = common.AddressFromVmCode(neoDelContract())
+	d2 := must(c.deployTx(neoDelContract(), payload.NEOVM_TYPE, k.Acct, 30_000_002))
 	_, e0, err := c.ethTx(c.ethKeys[0], 0, nil, 0, 300000, 0, evmInit(evmRuntimeStore))
 	if err != nil {
 		return nil, err
@@ -287,10 +329,10 @@ func newChain(dir string, r *rand.Rand, extraBlocks int) (*chain, error) {
 	c.evmStore = crypto.CreateAddress(c.ethAddrs[0], 0)
 	c.evmKill = crypto.CreateAddress(c.ethAddrs[0], 1)
 	c.ethNonce[c.ethAddrs[0]] = 2
-	if err := c.add(d0, d1, e0, e1); err != nil {
+	if err := c.add(d0, d1, d2, e0, e1); err != nil {
 		return nil, fmt.Errorf("block2: %v", err)
 	}
-	for i, t := range []*types.Transaction{d0, d1, e0, e1} {
+	for i, t := range []*types.Transaction{d0, d1, d2, e0, e1} {
 		if s := c.txState(t); s != 1 {
 			c.notes = append(c.notes, fmt.Sprintf("setup: block-2 tx %d state %d", i, s))
 		}
@@ -299,6 +341,8 @@ func newChain(dir string, r *rand.Rand, extraBlocks int) (*chain, error) {
 	w0 := must(c.signedInvoke(neoCall(c.neoLive, []byte("k0"), []byte("v0"), false), k.Acct, 0, 100000))
 	w1 := must(c.signedInvoke(neoCall(c.neoLive, []byte("k1"), []byte("v1"), false), k.Acct, 0, 100001))
 	w2 := must(c.signedInvoke(neoCall(c.neoDead, []byte("k0"), []byte("x0"), false), k.Acct, 0, 100002))
+	w3 := must(c.signedInvoke(neoDelCall(c.neoDel, []byte("k0"), []byte("d0"), true), k.Acct, 0, 100004))
+	w4 := must(c.signedInvoke(neoDelCall(c.neoDel, []byte("k1"), []byte("d1"), true), k.Acct, 0, 100005))
 	var word [32]byte
 	word[31] = 0x2a
 	_, e2, err := c.ethTx(c.ethKeys[0], 2, &c.evmStore, 0, 100000, 0, word[:])
@@ -306,10 +350,10 @@ func newChain(dir string, r *rand.Rand, extraBlocks int) (*chain, error) {
 		return nil, err
 	}
 	c.ethNonce[c.ethAddrs[0]] = 3
-	if err := c.add(w0, w1, w2, e2); err != nil {
+	if err := c.add(w0, w1, w2, w3, w4, e2); err != nil {
 		return nil, fmt.Errorf("block3: %v", err)
 	}
-	for i, t := range []*types.Transaction{w0, w1, w2, e2} {
+	for i, t := range []*types.Transaction{w0, w1, w2, w3, w4, e2} {
 		if s := c.txState(t); s != 1 {
 			c.notes = append(c.notes, fmt.Sprintf("setup: block-3 tx %d state %d", i, s))
 		}
